@@ -14,10 +14,11 @@ LOG="$OUT/confirm.log"; : > "$LOG"
 cd "$WT" || exit 2
 echo "== demo WITH change" >> "$LOG"
 timeout 900 cargo test --offline --test "$(basename "$DEMO" .rs)" >> "$LOG" 2>&1; D_WITH=$?
-git stash push -q -- memcrs/src
+# (git stash is shared by all worktrees of a repository: never use it here)
+git apply -R "$OUT/patch.diff"
 echo "== demo WITHOUT change" >> "$LOG"
 timeout 900 cargo test --offline --test "$(basename "$DEMO" .rs)" >> "$LOG" 2>&1; D_WITHOUT=$?
-git stash pop -q
+git apply "$OUT/patch.diff"
 mv "$DEMO" "$DEMO.off"
 echo "== suite WITH change" >> "$LOG"
 timeout 900 cargo test --workspace --offline > "$OUT/suite.log" 2>&1; S=$?
